@@ -379,6 +379,8 @@ def run_one(ctl: explorer.Ctl, cfg: Dict[str, Any]) -> Dict[str, Any]:
 
     if cfg.get("part") == "overlap":
         return run_overlap(ctl, cfg)
+    if cfg.get("part") == "servers":
+        return run_servers(ctl, cfg)
     mi, ii = cfg["m"], cfg["i"]
     m = _methods()[mi]
     path, mkind = method_kind(m)
@@ -404,10 +406,13 @@ def run_one(ctl: explorer.Ctl, cfg: Dict[str, Any]) -> Dict[str, Any]:
     only_p = cfg.get("p")
     only_b = cfg.get("b")
     single = only_p is not None and only_b is not None
+    ps = cfg.get("ps")          # optional subset of params indices (debug-logging slice)
 
     async def block():
         for pi in range(len(PARAMS)):
             if only_p is not None and pi != only_p:
+                continue
+            if ps is not None and pi not in ps:
                 continue
             cur["p"] = pi
             wire = build_input(mi, ii, pi)
@@ -528,7 +533,10 @@ def run_one(ctl: explorer.Ctl, cfg: Dict[str, Any]) -> Dict[str, Any]:
     for key, e in first.items():
         count("sig:" + key, e["n"])
         rank = ((mi * len(IDS) + ii) * len(PARAMS) + e["p"]) * len(BEHAVIOURS) + e["b"]
-        count(twopass.fail_key(e["sig"], rank, {"m": mi, "i": ii, "p": e["p"], "b": e["b"]}))
+        one = {"m": mi, "i": ii, "p": e["p"], "b": e["b"]}
+        if cfg.get("_log"):
+            one["_log"] = cfg["_log"]      # the failing case must be re-executed under the same logging configuration
+        count(twopass.fail_key(e["sig"], rank, one))
     return {
         "outcome": ",".join(sorted(outcomes_seen)) or "nothing-judged",
         "method": m,
@@ -720,6 +728,255 @@ def run_overlap(ctl: explorer.Ctl, cfg: Dict[str, Any]) -> Dict[str, Any]:
                              order.index(f"start{i}") + 1 != order.index(f"release{i}") for i in range(k)))}}
 
 
+# ---------------------------------------------------------------------------
+# several server objects alive at once, built with different registrations: each is judged by ITS OWN registrations
+# ---------------------------------------------------------------------------
+# profile -> what gets registered on the object (tool name -> behaviour, resource uri -> behaviour, custom methods)
+PROFILES: List[Dict[str, Any]] = [
+    {"kind": "MCPServer", "tools": {"alpha": "returns", "gamma": "returns"}, "resources": {"res://one": "returns"},
+     "methods": {"custom/a": "returns"}},
+    {"kind": "MCPServer", "tools": {"alpha": "returns", "beta": "raises"}, "resources": {"res://two": "raises"},
+     "methods": {"custom/b": "returns", "custom/a": "raises"}},
+    {"kind": "MCPServer", "tools": {}, "resources": {}, "methods": {}},
+    {"kind": "ProtocolHandler", "tools": None, "resources": None, "methods": {"custom/b": "returns"}},
+]
+SENTINEL_METHOD = "custom/registered-only-on-a-throw-away-object"
+SERVER_MODES = ["probe-after-all-built", "probe-while-building", "register-after-all-built"]
+PROBES: List[Dict[str, Any]] = (
+    [{"method": "tools/call", "params": {"name": n}} for n in ("alpha", "beta", "gamma", "nope")] +
+    [{"method": "resources/read", "params": {"uri": u}} for u in ("res://one", "res://two", "res://none")] +
+    [{"method": m} for m in ("tools/list", "resources/list", "custom/a", "custom/b", "custom/none", "ping", SENTINEL_METHOD)]
+)
+
+
+def run_servers(ctl: explorer.Ctl, cfg: Dict[str, Any]) -> Dict[str, Any]:
+    from chuk_mcp.protocol.messages.json_rpc_message import parse_message
+    from chuk_mcp.protocol.types.capabilities import ServerCapabilities
+    from chuk_mcp.protocol.types.info import ServerInfo
+    from chuk_mcp.server.protocol_handler import ProtocolHandler
+    from chuk_mcp.server.server import MCPServer
+
+    profs = [PROFILES[i] for i in cfg["profiles"]]
+    mode = SERVER_MODES[cfg["mode"]]
+    n = len(profs)
+    viol: List[dict] = []
+    toks: List[str] = []
+    counters = {"server-sets": 1, "probes-judged": 0}
+    objs: List[Any] = [None] * n     # (handler, profile, tag)
+
+    def construct(j):
+        p = profs[j]
+        if p["kind"] == "MCPServer":
+            srv = MCPServer(f"vf-c08-s{j}", "0.0.1")
+            objs[j] = [srv.protocol_handler, srv]
+        else:
+            ph = ProtocolHandler(ServerInfo(name=f"vf-c08-s{j}", version="0.0.1"), ServerCapabilities())
+            objs[j] = [ph, None]
+
+    def register(j):
+        p = profs[j]
+        handler, srv = objs[j]
+        tag = f"server#{j}"
+
+        def make(behaviour, what):
+            async def tool_or_resource(**kw):
+                if behaviour == "raises":
+                    raise KeyError(f"{what}@{tag} failed")
+                return f"{what}@{tag}"
+            return tool_or_resource
+
+        def make_method(behaviour, what):
+            async def method(message, session_id):
+                if behaviour == "raises":
+                    raise RuntimeError(f"{what}@{tag} failed")
+                if getattr(message, "id", None) is None:
+                    return None, None
+                return handler.create_response(message.id, {"by": f"{what}@{tag}"}), None
+            return method
+
+        for name, beh in (p["tools"] or {}).items():
+            srv.register_tool(name, make(beh, name), {"type": "object"}, name)
+        for uri, beh in (p["resources"] or {}).items():
+            srv.register_resource(uri, make(beh, uri), name=uri[-3:])
+        for meth, beh in p["methods"].items():
+            handler.register_method(meth, make_method(beh, meth))
+
+    def want(j, probe):
+        """(allowed outcome, text that must appear in a result) by server j's OWN registrations."""
+        p, tag = profs[j], f"server#{j}"
+        m = probe["method"]
+        if m == "ping":
+            return "R", None
+        if m.startswith("custom/"):
+            if m not in p["methods"]:
+                return "E-32601", None
+            return ("E-32603", None) if p["methods"][m] == "raises" else ("R", f"{m}@{tag}")
+        if p["kind"] != "MCPServer":
+            return "E-32601", None          # a bare ProtocolHandler has no tools/* or resources/* methods
+        if m == "tools/list":
+            return "R", sorted(p["tools"])
+        if m == "resources/list":
+            return "R", sorted(p["resources"])
+        key = probe["params"].get("name") if m == "tools/call" else probe["params"].get("uri")
+        table = p["tools"] if m == "tools/call" else p["resources"]
+        if key not in table:
+            return "E-32602", None
+        return ("E-32603", None) if table[key] == "raises" else ("R", f"{key}@{tag}")
+
+    async def probe_all(upto, round_name, order):
+        """Send every probe (request form and notification form) to every server built so far."""
+        for j in order:
+            if j >= upto:
+                continue
+            handler = objs[j][0]
+            position = "newest" if j == upto - 1 else "older"
+            for pi, probe in enumerate(PROBES):
+                for rid in (5, None):
+                    wire = {"jsonrpc": "2.0", **probe}
+                    if rid is not None:
+                        wire["id"] = rid
+                    counters["probes-judged"] += 1
+                    ctx = {"probe": probe["method"], "server_position": position, "server_kind": profs[j]["kind"]}
+
+                    def bad(cls, msg, **extra):
+                        viol.append({"sig": {"class": cls, **ctx, **extra},
+                                     "msg": f"{round_name}: server #{j} of {[p['kind'] for p in profs]} (own registrations "
+                                            f"{ {k: profs[j][k] for k in ('tools', 'resources', 'methods')} }) got {wire}: {msg}"})
+
+                    try:
+                        ret = await handler.handle_message(parse_message(json.loads(json.dumps(wire))))
+                    except Exception as e:  # noqa: BLE001
+                        toks.append("raised")
+                        bad("dispatch-raised", f"raised {type(e).__name__}: {str(e)[:100]}", detail=type(e).__name__)
+                        continue
+                    if not (isinstance(ret, tuple) and len(ret) == 2):
+                        toks.append("bad-shape")
+                        bad("bad-return-shape", f"returned {ret!r}")
+                        continue
+                    resp = ret[0]
+                    if rid is None:
+                        if resp is not None:
+                            toks.append("note-answered")
+                            bad("notification-got-response", f"answered with {_dump(resp)!r}")
+                        continue
+                    if resp is None:
+                        toks.append("no-response")
+                        bad("request-got-no-response", "no response")
+                        continue
+                    d = _dump(resp)
+                    kind, why = classify(d) if isinstance(d, dict) else (None, "not an object")
+                    if kind not in ("result", "error") or not strict_eq(d.get("id"), rid):
+                        toks.append("invalid")
+                        bad("invalid-response-envelope", f"{d!r}: {why}")
+                        continue
+                    tok = _token(d)
+                    toks.append(tok)
+                    exp, text = want(j, probe)
+                    if tok != exp:
+                        bad("answered-by-foreign-registrations" if n > 1 else "wrong-outcome",
+                            f"by its own registrations the answer is {exp}, it answered {tok}: {d!r}", expected=exp, got=tok)
+                    elif text is not None:
+                        blob = json.dumps(d.get("result"), sort_keys=True)
+                        if isinstance(text, list):
+                            listed = sorted(x.get("name") if probe["method"] == "tools/list" else x.get("uri")
+                                            for x in (d["result"].get("tools") or d["result"].get("resources") or []))
+                            if listed != text:
+                                bad("answered-by-foreign-registrations", f"lists {listed}, its own registrations are {text}",
+                                    expected="own-listing", got="other-listing")
+                        elif text not in blob:
+                            bad("answered-by-foreign-registrations",
+                                f"the result {blob} does not come from its own handler ({text})", expected="own-handler-result",
+                                got="another-objects-handler-result")
+
+    def throw_away():
+        """An object built and fully registered BEFORE the judged ones and then dropped: nothing of it may show on them.
+        (It registers every name the profiles use, so that whatever earlier executions left behind in this process - if
+        registrations leak at all - is overwritten and every execution starts from the same situation.)"""
+        srv = MCPServer("vf-c08-throw-away", "0.0.1")
+
+        async def h(**kw):
+            return "from-the-throw-away-object"
+
+        async def m(message, session_id):
+            if getattr(message, "id", None) is None:
+                return None, None
+            return srv.protocol_handler.create_response(message.id, {"by": "the-throw-away-object"}), None
+
+        for name in ("alpha", "beta", "gamma"):
+            srv.register_tool(name, h, {"type": "object"}, name)
+        for uri in ("res://one", "res://two"):
+            srv.register_resource(uri, h)
+        for meth in ("custom/a", "custom/b", SENTINEL_METHOD):
+            srv.protocol_handler.register_method(meth, m)
+
+    async def main():
+        throw_away()
+        idx = list(range(n))
+        if mode == "probe-after-all-built":
+            for j in idx:
+                construct(j)
+                register(j)
+            await probe_all(n, "all built, oldest first", idx)
+            await probe_all(n, "all built, newest first", idx[::-1])
+        elif mode == "probe-while-building":
+            for j in idx:
+                construct(j)
+                register(j)
+                await probe_all(j + 1, f"after building #{j}, newest first", idx[::-1])
+        else:
+            for j in idx:
+                construct(j)
+            for j in idx[::-1]:
+                register(j)
+            await probe_all(n, "registered after all were built", idx)
+
+    loop = new_loop(horizon=5)
+    status, val = loop.run_main(main())
+    errors = loop.collect_errors()
+    loop.abandon()
+    if status != "ok":
+        raise core.HarnessError(f"servers {cfg} did not complete: {status} {val!r}")
+    if errors:
+        raise core.HarnessError(f"servers {cfg}: event loop reported {errors[:2]}")
+    # one violation per signature in the observation (the first), the number of judgements in the counters
+    firsts: Dict[str, dict] = {}
+    for v in viol:
+        firsts.setdefault(json.dumps(v["sig"], sort_keys=True), v)
+    counters["violating-probe-judgements"] = len(viol)
+    tally: Dict[str, int] = {}
+    for t in toks:
+        tally[t] = tally.get(t, 0) + 1
+    return {"outcome": "+".join(f"{k}x{v}" for k, v in sorted(tally.items())), "mode": mode,
+            "kinds": [p["kind"] for p in profs], "violations": list(firsts.values()), "counters": counters}
+
+
+def servers_configs() -> List[Dict[str, Any]]:
+    out = []
+    for k in (1, 2, 3):
+        for profs in itertools.product(range(len(PROFILES)), repeat=k):
+            for mode in range(len(SERVER_MODES)):
+                out.append({"part": "servers", "profiles": list(profs), "mode": mode})
+    return out
+
+
+def debug_slice_configs(ms: List[str]) -> List[Dict[str, Any]]:
+    """A reduced but representative slice of the block grid, run with the library's logging enabled at DEBUG:
+    every method x id absent / int / str x params absent / null / {} / [] / registered and unknown name / uri x a few behaviours."""
+    def pidx(v):
+        for i, p in enumerate(PARAMS):
+            if type(p) is type(v) and p == v:
+                return i
+        raise core.HarnessError(f"params table lost {v!r}")
+
+    ps = [0, pidx(None), pidx({}), pidx([]), pidx({"name": TOOL}), pidx({"name": "nope"}), pidx({"uri": RES}),
+          pidx({"uri": "res://missing"})]
+    ids = [0, IDS.index(0), IDS.index("a")]
+    bnames = [b[0] for b in BEHAVIOURS]
+    bs = [0, bnames.index("raise-exception"), bnames.index("yield-then-raise"), bnames.index("nonsense-return-None")]
+    return [{"m": mi, "i": ii, "b": b, "ps": ps, "_log": "debug"} for mi in range(len(ms)) for ii in ids
+            for b in (bs if ms[mi] in BEHAVIOUR_SENSITIVE else REDUCED_BEHAVIOURS)]
+
+
 def overlap_configs(tier: str) -> List[Dict[str, Any]]:
     out = []
     # two calls: every ordered pair of messages with distinct ids (two notifications allowed) x targets x behaviours
@@ -771,8 +1028,12 @@ def run(tier: str, only=None) -> core.Result:
     c = res.parts[part]["counters"]
     # second pass: per signature the first PER_SIG failing cases (enumeration order) are re-executed one by one;
     # those single-case executions carry the violations (replay files are one input each)
-    twopass.second_pass(res, RUN, [part], per_sig=PER_SIG)
+    dcfgs = debug_slice_configs(ms)
+    outd = explorer.explore(RUN, dcfgs)
+    sched.absorb(res, "block-slice+debug-logging", RUN, outd, dcfgs)
+    twopass.second_pass(res, RUN, [part, "block-slice+debug-logging"], per_sig=PER_SIG)
     c = res.parts[part]["counters"]
+    dc = res.parts["block-slice+debug-logging"]["counters"]
     n_sens = sum(1 for x in ms if x in BEHAVIOUR_SENSITIVE)
     space = (n_sens * len(BEHAVIOURS) + (len(ms) - n_sens) * len(REDUCED_BEHAVIOURS)) * len(IDS) * len(PARAMS)
     if c.get("cases", 0) != space and not out["errors"]:
@@ -782,13 +1043,24 @@ def run(tier: str, only=None) -> core.Result:
     ocfgs = overlap_configs(tier)
     out3 = explorer.explore(RUN, ocfgs)
     sched.absorb(res, "overlapping-dispatches", RUN, out3, ocfgs)
+    sched.debug_pass(res, "overlapping-dispatches", RUN, ocfgs, every=7)
+    scfgs = servers_configs()
+    outs = explorer.explore(RUN, scfgs)
+    sched.absorb(res, "several-servers-alive", RUN, outs, scfgs)
+    sched.debug_pass(res, "several-servers-alive", RUN, scfgs, every=5)
+    sv = res.parts["several-servers-alive"]
+    res.coverage["server_sets"] = sv["executions"]
+    res.coverage["server_set_probes_judged"] = sv["counters"].get("probes-judged", 0)
+    res.coverage["debug_logging_cases"] = dc.get("cases", 0)
+    res.coverage["debug_logging_executions"] = sum(p["executions"] for k, p in res.parts.items() if k.endswith("+debug-logging"))
     oc = res.parts["overlapping-dispatches"]
     res.coverage["overlap_configurations"] = len(ocfgs)
     res.coverage["overlap_executions"] = oc["executions"]
     res.coverage["overlap_executions_with_a_dispatch_during_a_suspension"] = oc["counters"].get(
         "executions-with-a-dispatch-during-a-suspension", 0)
-    res.coverage["evaluations"] = c.get("cases", 0) + oc["executions"]
-    res.coverage["distinct_nontrivial"] = c.get("judged-distinct", 0) + oc["distinct_observations"]
+    res.coverage["evaluations"] = (c.get("cases", 0) + dc.get("cases", 0) + oc["executions"]
+                                   + sv["counters"].get("probes-judged", 0))
+    res.coverage["distinct_nontrivial"] = c.get("judged-distinct", 0) + oc["distinct_observations"] + sv["distinct_observations"]
     res.coverage["judged"] = c.get("judged", 0)
     res.coverage["violating_judgements"] = c.get("violating-judgements", 0)
     res.coverage["violating_judgements_by_signature"] = {k[4:]: v for k, v in sorted(c.items()) if k.startswith("sig:")}
@@ -820,7 +1092,13 @@ def run(tier: str, only=None) -> core.Result:
         "id 1, request id '2', notification; targets: tool / resource / register_method handler; each handler awaits a "
         "harness-owned future, then returns, raises KeyError or raises RuntimeError), every interleaving of start i / release i "
         "with start i before release i, run to quiescence after each step on the virtual loop; each call judged by the same rule "
-        "(own id, none for the notification, -32603 iff its own handler raised)"
+        "(own id, none for the notification, -32603 iff its own handler raised).  Several-servers part: every ordered tuple of 1..3 "
+        "objects over 4 registration profiles (two MCPServers with overlapping / different tools, resources and register_method "
+        "names, handlers tagged per object, some raising; an MCPServer with nothing registered; a bare ProtocolHandler) x 3 "
+        "build/probe orders; 13 probes in request and notification form to every object, each judged by ITS OWN registrations "
+        "(outcome, and that a result comes from its own handler / lists its own names).  Debug-logging passes: a slice of the "
+        "block grid (every method x id absent/int/str x 8 params shapes x up to 4 behaviours), every 7th overlap configuration "
+        "and every 5th server set re-run with the root logger at DEBUG (log-statement arguments are evaluated)"
     )
     res.assumptions = [
         "well-formed = accepted by the library's parse_message and a request/notification by the JSON-RPC reference grammar "
@@ -837,6 +1115,7 @@ def run(tier: str, only=None) -> core.Result:
         "response'), BaseException, exceptions whose __str__ fails",
         "the nonsense return values, when returned by a tool / resource handler, are ordinary arbitrary results: result or -32603",
         "the session_id argument of handle_message is None throughout (sessions are C19's subject)",
+        "two server objects built separately are independent: what is registered on one is not registered on another",
         "overlap part: two in-flight requests never share an id; a handler released before it is started (i.e. one that does "
         "not suspend) is the block part's subject; virtual loop schedules ready callbacks FIFO like stock asyncio",
     ]
